@@ -165,7 +165,21 @@ pub struct TcpScn {
     /// SOCKS5 only: the greeting, the request (and the early bytes) go out in ONE write, the method selection
     /// and the reply are read afterwards; `false` = the greeting alone, method selection awaited, then the request
     pub hello_joined: bool,
+    /// split handshake: the local client writes its handshake in PIECES, cut at these byte offsets (ascending; they
+    /// count over the concatenation of the client's handshake messages for the entry kind, see `handshake_msgs`:
+    /// SOCKS4/4a: the request; SOCKS5: greeting ++ request; HTTP: the CONNECT header; early bytes, when there are
+    /// any, follow the last message and count on).  Every piece is one `write_all` + `flush` on a socket with
+    /// `TCP_NODELAY`, followed by a pause of `SPLIT_PAUSE_MS`, so that the proxy's read returns with that piece
+    /// alone.  A cut on a message boundary where the client has to wait for the proxy's answer first (SOCKS5:
+    /// greeting | request, unless `hello=joined`) is the ordinary "write, await the answer, write"; an offset outside
+    /// the handshake cuts nothing.  Empty = every message in one write (the behaviour of every other family).
+    pub split: Vec<usize>,
 }
+
+/// The pause between two pieces of a split handshake: long enough for the proxy's task to have been woken, to have
+/// read the piece and to be waiting for more (on loopback with `TCP_NODELAY` that takes well under a millisecond;
+/// the rest is margin for a loaded machine), short enough for byte-by-byte delivery of an HTTP CONNECT header.
+pub const SPLIT_PAUSE_MS: u64 = 30;
 
 impl TcpScn {
     pub fn line(&self) -> String {
@@ -182,11 +196,25 @@ impl TcpScn {
         if self.hello_joined {
             l.push_str(" hello=joined");
         }
+        if !self.split.is_empty() {
+            l.push_str(&format!(" split={}", self.split.iter().map(usize::to_string).collect::<Vec<_>>().join(",")));
+        }
         l
     }
+    /// the split-handshake family: the handshake leaves the local client in more than one piece
+    pub fn is_split(&self) -> bool {
+        !self.split.is_empty()
+    }
+    /// the cuts that really cut something: (offset, where it falls), see `cut_label`
+    pub fn split_cuts(&self) -> Vec<(usize, String)> {
+        let joined = self.hello_joined && self.entry.is_socks5();
+        let early = if self.early > 0 { self.early_bytes() } else { 0 };
+        self.split.iter().filter_map(|k| cut_label(self.entry, joined, early, *k).map(|l| (*k, l))).collect()
+    }
     /// the optimistic-data family: the client does not wait for (all of) the proxy's replies before it goes on
+    /// (and writes each of its messages in one piece: otherwise the scenario belongs to the split-handshake family)
     pub fn is_early(&self) -> bool {
-        self.early > 0 || self.hello_joined
+        (self.early > 0 || self.hello_joined) && !self.is_split()
     }
     /// how many bytes of the upload travel with the handshake
     pub fn early_bytes(&self) -> usize {
@@ -198,7 +226,7 @@ impl TcpScn {
         if t.next()? != "tcp" {
             return None;
         }
-        let mut s = TcpScn { entry: Entry::Tcp, mode: Mode::Echo, up: 0, down: 0, upc: Chunk::Whole, downc: Chunk::Whole, slow_ms: 0, seed: 0, rcvbuf: 0, pace_ms: 0, early: 0, hello_joined: false };
+        let mut s = TcpScn { entry: Entry::Tcp, mode: Mode::Echo, up: 0, down: 0, upc: Chunk::Whole, downc: Chunk::Whole, slow_ms: 0, seed: 0, rcvbuf: 0, pace_ms: 0, early: 0, hello_joined: false, split: vec![] };
         for kv in t {
             let (k, v) = kv.split_once('=')?;
             match k {
@@ -218,6 +246,15 @@ impl TcpScn {
                         "joined" => true,
                         "alone" => false,
                         _ => return None,
+                    }
+                }
+                "split" => {
+                    // `none`, or offsets > 0 in strictly ascending order
+                    if v != "none" {
+                        s.split = v.split(',').map(|k| k.parse().ok()).collect::<Option<Vec<usize>>>()?;
+                        if s.split.first() == Some(&0) || s.split.windows(2).any(|p| p[0] >= p[1]) {
+                            return None;
+                        }
                     }
                 }
                 _ => return None,
@@ -367,9 +404,104 @@ pub fn last_handshake_write_len(entry: Entry, joined: bool) -> usize {
     if joined { m.iter().map(Vec::len).sum() } else { m.last().map_or(0, Vec::len) }
 }
 
+/// The fields of the client's handshake in the order in which they are sent: (name, length), message by message
+/// (same messages as `handshake_msgs`; the lengths add up to the lengths of those messages).
+pub fn handshake_fields(entry: Entry, port: u16) -> Vec<Vec<(&'static str, usize)>> {
+    let host_len = |e: Entry| match e {
+        Entry::HttpV4 => format!("127.0.0.1:{port}").len(),
+        Entry::HttpV6 => format!("[::1]:{port}").len(),
+        _ => format!("localhost:{port}").len(),
+    };
+    match entry {
+        Entry::Tcp | Entry::Uds => vec![],
+        Entry::Socks4 => vec![vec![("vn", 1), ("cd", 1), ("dstport", 2), ("dstip", 4), ("userid", 5), ("userid-nul", 1)]],
+        Entry::Socks4a => vec![vec![("vn", 1), ("cd", 1), ("dstport", 2), ("dstip", 4), ("userid", 5), ("userid-nul", 1), ("hostname", 9), ("hostname-nul", 1)]],
+        Entry::Socks5V4 | Entry::Socks5V6 | Entry::Socks5Dom => {
+            let mut req = vec![("ver", 1), ("cmd", 1), ("rsv", 1), ("atyp", 1)];
+            match entry {
+                Entry::Socks5V4 => req.push(("addr", 4)),
+                Entry::Socks5V6 => req.push(("addr", 16)),
+                _ => req.extend([("domain-len", 1), ("addr", 9)]),
+            }
+            req.push(("port", 2));
+            vec![vec![("greeting-ver", 1), ("greeting-nmethods", 1), ("greeting-methods", 1)], req]
+        }
+        Entry::HttpV4 | Entry::HttpV6 | Entry::HttpDom => {
+            let h = host_len(entry);
+            // CONNECT host HTTP/1.1 CRLF Host: host CRLF CRLF
+            vec![vec![("method", 7), ("sp", 1), ("target", h), ("sp", 1), ("version", 8), ("crlf", 2), ("header-name", 5), ("header-value", 1 + h), ("crlfcrlf", 4)]]
+        }
+    }
+}
+
+/// The length of the client's whole handshake (all messages).  Offsets of cuts are computed for a target port of
+/// five digits, which is what the world's targets get (ephemeral ports, 32768 and up); with a shorter port the
+/// offsets behind the port of an HTTP CONNECT request move to the left by a byte or two per occurrence.
+pub fn handshake_len(entry: Entry) -> usize {
+    handshake_fields(entry, 40_000).iter().flatten().map(|(_, n)| n).sum()
+}
+
+/// Every offset at which a cut really cuts the handshake of this entry kind, with where it falls.
+pub fn cut_positions(entry: Entry, joined: bool) -> Vec<(usize, String)> {
+    (1..handshake_len(entry)).filter_map(|k| cut_label(entry, joined, 0, k).map(|l| (k, l))).collect()
+}
+
+/// Where a cut at offset `k` of the client's handshake (pieces `..k` and `k..`) falls: `inside-<field>` or
+/// `<field>|<next field>`.  `None` when nothing is cut there: offset 0, an offset at or past the end, and the
+/// boundary between two messages of which the second is sent only after the proxy's answer to the first (SOCKS5
+/// greeting | request when they are not `joined`).  `early` payload bytes follow the last message.
+pub fn cut_label(entry: Entry, joined: bool, early: usize, k: usize) -> Option<String> {
+    let msgs = handshake_fields(entry, 40_000);
+    let mut at = 0usize;
+    let mut prev: Option<&'static str> = None;
+    for (mi, m) in msgs.iter().enumerate() {
+        for (fi, (name, len)) in m.iter().enumerate() {
+            if k == at {
+                // a field boundary
+                let first_of_later_msg = fi == 0 && mi > 0;
+                return match prev {
+                    None => None,
+                    Some(_) if first_of_later_msg && !joined => None,
+                    Some(p) => Some(format!("{p}|{name}")),
+                };
+            }
+            if k < at + len {
+                return Some(format!("inside-{name}"));
+            }
+            at += len;
+            prev = Some(name);
+        }
+    }
+    match (prev, k - at) {
+        (Some(p), 0) if early > 0 => Some(format!("{p}|payload")),
+        (_, d) if d > 0 && d < early => Some("inside-payload".to_string()),
+        _ => None,
+    }
+}
+
+/// Write one handshake message whose first byte has offset `base` in the concatenation of the client's handshake
+/// messages: in one write when no cut of `split` falls strictly inside it, otherwise piece by piece, every piece
+/// flushed and followed by a pause (none after the last piece of the message: what follows is either the wait for
+/// the proxy's answer or the rest of the scenario).
+async fn w_split(s: &mut BoxStream, b: Vec<u8>, base: usize, split: &[usize]) -> Result<(), String> {
+    let mut from = 0usize;
+    for cut in split.iter().filter(|k| **k > base && **k < base + b.len()).map(|k| k - base) {
+        w(s, b[from..cut].to_vec()).await?;
+        match tokio::time::timeout(step(), s.flush()).await {
+            Err(_) => return Err("HANG flushing a piece of the request".to_string()),
+            Ok(Err(e)) => return Err(format!("flushing a piece of the request: {e}")),
+            Ok(Ok(())) => {}
+        }
+        tokio::time::sleep(Duration::from_millis(SPLIT_PAUSE_MS)).await;
+        from = cut;
+    }
+    w(s, b[from..].to_vec()).await
+}
+
 /// `early`: payload bytes that go out in the same write as the last handshake message, before any reply to it
-/// has been read; `joined` (SOCKS5): greeting and request in one write as well.
-async fn handshake(entry: Entry, s: &mut BoxStream, ip4: [u8; 4], port: u16, early: &[u8], joined: bool) -> Result<String, String> {
+/// has been read; `joined` (SOCKS5): greeting and request in one write as well; `split`: the offsets at which
+/// the handshake is cut into pieces that are written one by one (`TcpScn::split`).
+async fn handshake(entry: Entry, s: &mut BoxStream, ip4: [u8; 4], port: u16, early: &[u8], joined: bool, split: &[usize]) -> Result<String, String> {
     let mut msgs = handshake_msgs(entry, ip4, port);
     if joined && msgs.len() > 1 {
         msgs = vec![msgs.concat()];
@@ -379,16 +511,31 @@ async fn handshake(entry: Entry, s: &mut BoxStream, ip4: [u8; 4], port: u16, ear
         None if !early.is_empty() => msgs.push(early.to_vec()),
         None => {}
     }
-    let mut msgs = msgs.into_iter();
+    // offset of each message in the concatenation
+    let mut bases = vec![];
+    let mut at = 0usize;
+    for m in &msgs {
+        bases.push(at);
+        at += m.len();
+    }
+    let mut msgs = msgs.into_iter().zip(bases);
+    // the next message, piece by piece
+    macro_rules! send_next {
+        () => {
+            if let Some((m, base)) = msgs.next() {
+                w_split(s, m, base, split).await?;
+            }
+        };
+    }
     match entry {
         Entry::Tcp | Entry::Uds => {
-            for m in msgs {
-                w(s, m).await?;
+            for (m, base) in msgs {
+                w_split(s, m, base, split).await?;
             }
             Ok(String::new())
         }
         Entry::Socks4 | Entry::Socks4a => {
-            w(s, msgs.next().unwrap_or_default()).await?;
+            send_next!();
             let rep = read_exact_t(s, 8, "the SOCKS4 reply").await?;
             if rep[0] != 0 || rep[1] != 90 {
                 return Err(format!("SOCKS4 reply {}", pvhf::hex(&rep)));
@@ -397,14 +544,12 @@ async fn handshake(entry: Entry, s: &mut BoxStream, ip4: [u8; 4], port: u16, ear
         }
         Entry::Socks5V4 | Entry::Socks5V6 | Entry::Socks5Dom => {
             // either the greeting alone, or greeting + request (+ early bytes) in one write
-            w(s, msgs.next().unwrap_or_default()).await?;
+            send_next!();
             let m = read_exact_t(s, 2, "the SOCKS5 method selection").await?;
             if m != [5, 0] {
                 return Err(format!("SOCKS5 method selection {}", pvhf::hex(&m)));
             }
-            if let Some(req) = msgs.next() {
-                w(s, req).await?;
-            }
+            send_next!();
             let head = read_exact_t(s, 4, "the SOCKS5 reply").await?;
             let alen = match head[3] {
                 1 => 4,
@@ -419,7 +564,7 @@ async fn handshake(entry: Entry, s: &mut BoxStream, ip4: [u8; 4], port: u16, ear
             Ok(format!("socks5 reply {}{}", pvhf::hex(&head), pvhf::hex(&rest)))
         }
         Entry::HttpV4 | Entry::HttpV6 | Entry::HttpDom => {
-            w(s, msgs.next().unwrap_or_default()).await?;
+            send_next!();
             let mut head = vec![];
             while !head.ends_with(b"\r\n\r\n") {
                 if head.len() > 4096 {
@@ -497,7 +642,7 @@ pub async fn run_conn(w: Arc<World>, slot: usize, sc: TcpScn) -> ConnObs {
             return obs;
         }
     };
-    match handshake(sc.entry, &mut stream, [127, 0, 0, 1], target_port, &early, sc.hello_joined && sc.entry.is_socks5()).await {
+    match handshake(sc.entry, &mut stream, [127, 0, 0, 1], target_port, &early, sc.hello_joined && sc.entry.is_socks5(), &sc.split).await {
         Ok(t) => obs.handshake = t,
         Err(e) => {
             obs.handshake_fail = Some(e);
